@@ -217,7 +217,8 @@ impl Db {
                     None => {
                         // binary op without explicit Rhs: Rhs = Self
                         if ["Add", "Sub", "Mul", "Div", "AddAssign", "SubAssign", "MulAssign", "DivAssign"].contains(&tn.as_str()) {
-                            Rhs::SelfOwn
+                            // default Rhs = Self (a reference when the impl is for a reference type)
+                            if self_ref { Rhs::SelfRef } else { Rhs::SelfOwn }
                         } else {
                             Rhs::None
                         }
